@@ -430,7 +430,11 @@ def st_route(tier):
         c["cs"] = [draw(bench.st_schedule()) for _ in range(1 if kind == "arbiter" else n)]
         if kind == "dispatcher":
             c["one_hot"] = draw(st.booleans())
-            c["sel"] = draw(st.lists(st.integers(0, n - 1 if n > 1 else 0), min_size=1, max_size=24))
+            # -1: a selector value that designates no slave (one-hot 0; binary n when the code space is larger than n): such a
+            # packet is dropped (the dispatcher's default branch accepts and discards it), the following ones still flow
+            none_ok = (c["one_hot"] and n >= 1) or (not c["one_hot"] and n == 3)
+            c["sel"] = draw(st.lists(st.one_of(st.integers(0, n - 1 if n > 1 else 0), st.integers(0, n - 1 if n > 1 else 0),
+                                               st.just(-1) if none_ok else st.just(0)), min_size=1, max_size=24))
         return c
     return case()
 
@@ -491,7 +495,7 @@ def run_route(case):
     prod = bench.Producer(master, toks, case["ps"][0], garbage_seed=case["g"], until=T - 40)
     conss = [bench.Consumer(s, cs, until=T - 40, check_hold=False) for s, cs in zip(slaves, case["cs"])]
     selseq = case["sel"]
-    enc = (lambda v: 1 << v) if case["one_hot"] else (lambda v: v)
+    enc = (lambda v: 0 if v < 0 else 1 << v) if case["one_hot"] else (lambda v: n if v < 0 else v)
     drv = bench.Driver(lambda t: {dut.sel: enc(selseq[t % len(selseq)])})
     cyc = bench.run(dut, [prod, drv] + conss, T + 100, stop=lambda t: t > T and prod.done())
     cls = ["dispatcher", "n=%d" % n, "one-hot" if case["one_hot"] else "binary"]
@@ -503,6 +507,8 @@ def run_route(case):
     for c, t in prod.sent:
         if t[2]:
             dest[t[0][2]] = sel_at(c) if n > 1 or case["one_hot"] else 0
+            if dest[t[0][2]] < 0:
+                cls.append("packet-for-no-slave")
     per = {}
     for j, co in enumerate(conss):
         for c, t in co.got:
@@ -513,6 +519,8 @@ def run_route(case):
             per.setdefault(seq, []).append((c, d, t[3]))
     for s, p in enumerate(case["pk"][0]):
         gotp = [d for _, d, _ in sorted(per.get(s, []))]
+        if dest.get(s, 0) < 0:
+            p = []                 # dropped
         if gotp != p:
             return bad("delivery", "packet.Dispatcher: packet %d delivered as %r, sent %r" % (s, gotp, p), key="packet:dispatcher:data", cls=cls, cycles=cyc)
     return ok(nt=n >= 2 and len(case["pk"][0]) >= 2, cls=cls, cycles=cyc)
